@@ -18,7 +18,7 @@ RULE = ("(names) Hypothesis expression trees over a confusable vocabulary (names
         "are also variables, exponent literals with suffixes, names only inside array literals / exponents / "
         "arguments): parse(s) and evaluator(s) must report exactly the generator's variable / function / suffix sets. "
         "Non-trivial iff two names of which one is a prefix or suffix of the other, or a name in array/exponent/argument position. "
-        "(history) EXHAUSTIVE: every call sequence of length <= 3 (quick) / <= 4 (thorough) over 13 strings (valid, "
+        "(history) EXHAUSTIVE: every call sequence of length <= 3 (quick) / <= 4 (thorough) over 14 strings (valid, "
         "malformed, equal up to spaces) x {parse, evaluator}, each sequence run in a forked child of a process that "
         "never parsed; every call's outcome (names, value, or error type+message) must equal the outcome of the same "
         "call made first in a pristine process and, for parse, on a freshly constructed MathParser. Non-trivial iff a "
@@ -173,7 +173,7 @@ def judge_names(spec, rec):
 # histories
 
 ALPHABET = ['x+y', 'x + y', 'f(x)', 'x*', '(x', 'sin(y)+z', '2k', 'f(x,)', '[x,y]', 'g(z)+$', 'y', 'sin+sin(x)',
-            'X+y']
+            'X+y', 'si\tn(y)+z']
 H_VARS = {'x': 2.0, 'y': 3.0, 'z': 5.0, 'sin': 7.0}
 H_SUFF = {'k': 1000.0}
 
